@@ -47,7 +47,7 @@ Widths    == {"none", "1", "4"}
 Wraps     == {"none", "0", "20"}
 BoolArgs  == {"none", "True", "False", "x"}        \* type=bool: bool("False") is True
 Chan      == {"file", "stdin"}
-OutChan   == {"stdout", "outfile"}
+OutChan   == {"stdout", "outfile", "samefile"}     \* samefile: -o names the input file itself (in-place formatting)
 CliEncs   == {"utf-8", "gbk", "latin-1", "utf-16", "utf-16-le"}
 
 BoolOf(a) == a # "none"
